@@ -351,6 +351,33 @@ def dirLoad (d : Dir) : List Sig :=
     | .sigs l => l
     | _ => []
 
+/-- `traverse_find_sigs`: `for name in sorted(files)` -- the files of a (flat) directory in the order of
+    their names `<md5>.sig.gz` < `<md5>_0.sig.gz` < `<md5>_1.sig.gz` < ... (32 hex digits: numeric order of
+    the md5; suffixes compared as numbers, which is the string order as long as they have one digit) -/
+def nameLe (a b : Name) : Bool :=
+  match a, b with
+  | .sig ⟨m1, s1⟩, .sig ⟨m2, s2⟩ =>
+    if m1 < m2 then true else if m2 < m1 then false
+    else match s1, s2 with
+      | none, _ => true
+      | some _, none => false
+      | some i, some j => i ≤ j
+  | _, _ => true
+
+def insertByName (e : Name × Content) : Zip → Zip
+  | [] => [e]
+  | f :: t => if nameLe e.1 f.1 then e :: f :: t else f :: insertByName e t
+
+def dirSorted (d : Dir) : Dir := d.foldr insertByName []
+
+/-- what the command line tools read from a directory, in order -/
+def dirLoadSorted (d : Dir) : List Sig := dirLoad (dirSorted d)
+
+/-- `sig cat --unique`: a signature whose md5 was already encountered is skipped -/
+def catUnique : List Sig → List Sig
+  | [] => []
+  | s :: rest => s :: (catUnique rest).filter (fun t => t.md5 ≠ s.md5)
+
 /-- the manifest `MultiIndex.load` builds: one row per signature, location = path relative to the directory -/
 def dirManifest (d : Dir) : List Row :=
   d.flatMap fun e => match e.2 with
@@ -483,22 +510,27 @@ def sqlManifestKeep : List Row → List Row
   | [] => []
   | r :: rest => r :: (sqlManifestKeep rest).filter (fun q => !(q.loc = r.loc && q.md5 = r.md5))
 
-/-- `manifest.to_picklist()`: the set of `(identifier, md5[:8])` of the rows (the identifier is the name up
-    to the first space; the harness's names have none) -/
-def picklistOf (rows : List Row) : List (Nat × Nat) := rows.map fun r => (r.name, r.md5short)
+/-- what a manifest-derived picklist compares.  `full = true` (since commit cff7217): the row itself, the
+    full `(name, md5)`.  `full = false` (before): `(identifier, md5[:8])`, the identifier being the name up
+    to the first space (the harness's names have none).  The translator reports which it is. -/
+def rowKey (full : Bool) (r : Row) : Nat × Nat := (r.name, if full then r.md5 else r.md5short)
+def sigKey (full : Bool) (s : Sig) : Nat × Nat := (s.name, if full then s.md5 else md5short s.md5)
+
+/-- `manifest.to_picklist()` -/
+def picklistOf (full : Bool) (rows : List Row) : List (Nat × Nat) := rows.map (rowKey full)
 
 /-- `StandaloneManifestIndex.signatures()` over a manifest all of whose rows point at one collection that
     is NOT a zip (MultiIndex, SqliteIndex: `select(picklist=...)` filters the rows, each row is one
     signature): the collection's signatures restricted to the picklist of the manifest's rows -/
-def standaloneLoad (rows : List Row) (loaded : List Sig) : List Sig :=
-  loaded.filter fun s => (picklistOf rows).contains (s.name, md5short s.md5)
+def standaloneLoad (full : Bool) (rows : List Row) (loaded : List Sig) : List Sig :=
+  loaded.filter fun s => (picklistOf full rows).contains (sigKey full s)
 
 /-- `ZipFileLinearIndex.select(picklist=pl).signatures()`: the zip's manifest rows matching the picklist,
     their distinct locations, each member loaded, `ss in manifest` w.r.t. the SELECTED rows -/
-def zipSelectLoad (z : Zip) (picks : List (Nat × Nat)) : Res (List Sig) :=
+def zipSelectLoad (full : Bool) (z : Zip) (picks : List (Nat × Nat)) : Res (List Sig) :=
   match read z .manifest with
   | some (.manifest rows) =>
-    let sel := rows.filter fun r => picks.contains (r.name, r.md5short)
+    let sel := rows.filter fun r => picks.contains (rowKey full r)
     loadLocs z sel (locations sel)
   | _ => .err .notImplemented     -- manifest-less zips are not written by the savers
 
@@ -519,12 +551,12 @@ def concatRes : List (Res (List Sig)) → Res (List Sig)
 
 /-- `StandaloneManifestIndex.signatures()`: ONE picklist from all rows; for each distinct
     internal_location: `load_file_as_index(iloc).select(picklist=picklist).signatures()` -/
-def standaloneLoadFs (fs : Fs) (mfRows : List Row) : Res (List Sig) :=
+def standaloneLoadFs (full : Bool) (fs : Fs) (mfRows : List Row) : Res (List Sig) :=
   concatRes ((locations mfRows).map fun loc =>
     match loc with
     | some (.other k) =>
       match fsLookup fs k with
-      | some z => zipSelectLoad z (picklistOf mfRows)
+      | some z => zipSelectLoad full z (picklistOf full mfRows)
       | none => .err .valueError
     | _ => .err .valueError)
 
